@@ -470,6 +470,9 @@ func (k *Keeper) SetAllPrevConsKeys(ctx sdk.Context, prevConsKeys []types.PrevCo
 		bz := k.cdc.MustMarshal(wrappedKey.ToTmProtoKey())
 
 		store.Set(types.KeyForChainIDAndOperatorToPrevConsKey(chainID, opAccAddr), bz)
+		// a replaced key stays slashable (and, until the epoch ends, validating): the lookup from its
+		// consensus address to the operator is part of the state, like the one of the current key.
+		store.Set(types.KeyForChainIDAndConsKeyToOperator(chainID, wrappedKey.ToConsAddr()), opAccAddr.Bytes())
 	}
 	return nil
 }
